@@ -229,3 +229,62 @@ Proof.
   - unfold observe. fold en. rewrite Ht, Hc, Hn, Hv, A. reflexivity.
   - simpl. repeat split; auto.
 Qed.
+
+(* ------------------------------------------------------------------------------------ coded labels = specification labels *)
+
+Lemma combine_map_pair : forall {A B C} (f : A -> B) (g : A -> C) l,
+  map (fun a => (f a, g a)) l = combine (map f l) (map g l).
+Proof. induction l; simpl; congruence. Qed.
+
+Lemma types_of_nodup : forall en p,
+  NoDup (map p_key en) -> In p en -> type_of (types_of en) (p_key p) = ptype_of p.
+Proof.
+  intros en p N Hin. unfold types_of, type_of.
+  rewrite dict_of_nodup by (rewrite map_map; exact N).
+  apply In_nth_error in Hin. destruct Hin as [j Ej].
+  rewrite combine_map_pair.
+  erewrite dict_get_combine; eauto; rewrite nth_error_map, Ej; reflexivity.
+Qed.
+
+(* _add_product_parameters attaches, for a run of a request with distinct keys, exactly the coordinates
+   the specification expects: the value under the parameter's name and, for a vector-valued parameter,
+   its position under <name>_id. *)
+Theorem product_label_is_spec : forall names en ix vals,
+  NoDup (map p_key en) -> length vals = length en -> length ix = length en ->
+  product_label names (types_of en) ix (combine (map p_key en) vals)
+  = spec_label Product names en ix (combine (map p_key en) vals).
+Proof.
+  intros names en ix vals N Lv Li.
+  set (params := combine (map p_key en) vals).
+  set (types := types_of en).
+  (* generalise over a suffix of the parameters *)
+  assert (G : forall en' ix' vals',
+    (forall p, In p en' -> In p en) -> length vals' = length en' -> length ix' = length en' ->
+    (forall p v, In (p, v) (combine en' vals') -> dict_get (p_key p) params = Some v) ->
+    product_label names types ix' (combine (map p_key en') vals')
+    = flat_map (fun ikp : nat * param => let '(i, p) := ikp in
+                  let v := match dict_get (p_key p) params with Some v => v | None => Ph end in
+                  match ptype_of p with
+                  | Simple => [(name_of names (p_key p), LV v)]
+                  | Multi => [(name_of names (p_key p) ++ "_id", LI i); (name_of names (p_key p), LV v)]
+                  end) (combine ix' en')).
+  { induction en' as [|p en' IH]; intros ix' vals' Hsub Lv' Li' Hget.
+    - destruct ix'; reflexivity.
+    - destruct ix' as [|i ix']; [discriminate|]. destruct vals' as [|v vals']; [discriminate|].
+      simpl. unfold types. rewrite (types_of_nodup en p N) by (apply Hsub; simpl; auto).
+      rewrite (Hget p v) by (simpl; auto).
+      fold types. rewrite IH.
+      + destruct (ptype_of p); reflexivity.
+      + intros q Hq. apply Hsub. simpl. auto.
+      + simpl in Lv'. lia.
+      + simpl in Li'. lia.
+      + intros q w Hq. apply Hget. simpl. auto. }
+  unfold spec_label. apply G; auto.
+  intros p v Hin. apply In_nth_error in Hin. destruct Hin as [j Ej].
+  assert (Ep : nth_error en j = Some p /\ nth_error vals j = Some v).
+  { clear - Ej. revert vals j Ej. induction en as [|a en IH]; intros vals j Ej; destruct vals, j; simpl in *; try discriminate.
+    - inversion Ej; auto.
+    - apply IH; auto. }
+  destruct Ep as [Ep Ev]. unfold params.
+  eapply dict_get_combine; eauto. rewrite nth_error_map, Ep. reflexivity.
+Qed.
